@@ -132,7 +132,7 @@ Qed.
 Lemma silent_step now s m :
   wf s -> snd (step s m) = false -> observe now (fst (step s m)) = observe now s.
 Proof.
-  intros Hwf W. destruct m; cbn [step] in *; cbn [fst snd] in *.
+  intros Hwf W. rewrite step_eq in *. destruct m; cbn [step_old] in *; cbn [fst snd] in *.
   - apply silent_player_update; assumption.
   - apply silent_player_update; assumption.
   - rewrite state_updated_always in W. discriminate.
@@ -164,6 +164,24 @@ Proof.
   intro H. destruct (snd (step (run h) m)) eqn:W; [reflexivity|].
   exfalso. apply H. rewrite run_snoc. apply silent_step; [apply wf_run|exact W].
 Qed.
+
+(* ... and the listener is woken while the manager already is in the new state: what it reads
+   inside state_updated() is the new report *)
+Lemma step_w_fst s m : fst (step_w s m) = fst (step s m).
+Proof. reflexivity. Qed.
+
+Theorem wake_complete_w now h m :
+  observe now (run (h ++ [m])) <> observe now (run h) ->
+  snd (step_w (run h) m) = Some (run (h ++ [m])).
+Proof.
+  intro H. apply wake_complete in H. unfold step in H. cbn [snd] in H.
+  destruct (snd (step_w (run h) m)) as [sw|] eqn:W; [|discriminate].
+  apply wake_is_final in W. rewrite W, run_snoc. reflexivity.
+Qed.
+
+Theorem wake_sees_final h m sw :
+  snd (step_w (run h) m) = Some sw -> sw = run (h ++ [m]).
+Proof. intro W. apply wake_is_final in W. rewrite W, run_snoc. reflexivity. Qed.
 
 (* ------------------------------------------------------------------ other players *)
 Definition elsewhere (rh : list msg) (m : msg) : Prop :=
